@@ -1,11 +1,162 @@
 (* Props/C01.v — tag reads return exactly what the controller holds.
    Statement + exact + Print Assumptions only.  Client model: Model/LogixRead.v (request parsing,
-   messages, reply parsing, fragment reassembly, multi-service demultiplexing, bit / BOOL-range
-   extraction), composed with the reference target (Spec/TargetCore.v + Spec/TargetLogix.v);
-   reference interpretation: Spec/Expect.v. *)
-From PV Require Import Base.Bytes Base.Res Base.PyStr Spec.Project Spec.Expect Model.LogixRead.
-From PV Require Import Proofs.ReadBits Proofs.ReadDecode.
+   planner of Model/LogixPlan.v, messages, reply parsing, fragment reassembly, multi-service
+   demultiplexing, bit / BOOL-range extraction), composed with the reference target
+   (Spec/TargetCore.v dispatch + Multiple Service Packet, Spec/TargetLogix.v tag services);
+   reference interpretation: Spec/Expect.v (ref_read / ref_type).
+
+   C01_full is the property at full strength.  What is proved:
+     C01_partial      = read_correct_partial: the same conclusion for every request that [request_ok]:
+                        the client's parse of the string and the target's resolution of the client's
+                        path agree with the place Expect.resolve assigns ([resolves], a per-request
+                        condition decidable by computation) — for ALL projects with a sound layout,
+                        memory images, fragment policies, connection sizes, numbers of requests,
+                        single-packet / multi-service / fragmented plans, element types (atomic, REAL /
+                        LREAL as bit patterns, arrays and {n} slices, integer bits, BOOL members, BOOL
+                        arrays and ranges, strings, structures with hidden hosts at any nesting depth).
+     C01_full_from_resolution : C01_full follows from [resolution_sound] — exactly the part that is
+                        NOT proved: that every request string which exists in the project (rendered with
+                        the project's spelling) is parsed by _parse_tag_request / tag_request_path into a
+                        path the target resolves to the same place (the string layer; all request shapes).
+     C01_components   the component lemmas, each universally quantified. *)
+From Coq Require Import String.
+From PV Require Import Base.Bytes Base.Res Base.PyStr Spec.Project Spec.Expect Spec.TargetIface Spec.TargetCore Spec.TargetLogix.
+From PV Require Import Model.LogixRead.
+From PV Require Import Proofs.ReadBits Proofs.ReadDecode Proofs.ReadTarget Proofs.ReadValue Proofs.ReadFrag Proofs.ReadMulti
+  Proofs.ReadPlan Proofs.ReadCorrect.
+Open Scope list_scope.
 Open Scope Z_scope.
+
+(* ---------------------------------------------------------------- the property *)
+(* the request goes through the connection: its path fits, one element fits a reply, the data size fits
+   the UDINT offset of Read Tag Fragmented, the fuel of the model's fragment loop suffices *)
+Definition travels (conn : Z) (fuel : nat) (q : preq) (path : bytes) : Prop :=
+  Path.len path + 11 <= conn /\ ti_esize (pq_info q) + 10 <= conn
+  /\ pq_elements q * ti_esize (pq_info q) < 4294967296
+  /\ (Z.to_nat (pq_elements q * ti_esize (pq_info q)) < fuel)%nat.
+
+(* a request that exists in the connected controller (spelled as the controller spells it) *)
+Definition exists_in (p : project) (mem : Project.mem) (cfg : ccfg) (fuel : nat) (s : text) (r : request_ast) : Prop :=
+  parse_request s = Some r /\ ref_read p mem r <> None
+  /\ (exists q path, parse_tag_request (client_tags p) s = Ok q /\ read_path (c_use_ids cfg) q = Ok path
+                     /\ travels (c_conn cfg) fuel q path).
+
+Definition C01_conclusion p mem cfg fuel st reqs asts : Prop :=
+  exists st' sent tags,
+    run_read fuel cfg (client_tags p) st reqs = (st', sent, Done tags)
+    /\ Forall2 (tag_correct p mem) asts tags.
+
+Definition C01_full : Prop :=
+  forall p mem pol basic cfg fuel st ms reqs asts,
+    wf_project p = true -> wf_mem p mem = true -> layout_ok p = true -> 0 < po_bool_true pol < 256 ->
+    quiet (mkLState p mem pol basic) ms st -> (c_micro800 cfg = false -> ms = true) -> c_conn cfg < 65536 ->
+    Forall2 (exists_in p mem cfg fuel) reqs asts ->
+    C01_conclusion p mem cfg fuel st reqs asts.
+
+(* the excluded input class: the element count the client puts on the wire does not fit the UINT
+   field of Read Tag (`tag{65536}` and up; BOOL arrays: more than 65535 DWORDs) *)
+Definition C01_guard (p : project) (s : text) : bool :=
+  match parse_tag_request (client_tags p) s with
+  | Ok q => 65536 <=? pq_elements q
+  | Err _ => false
+  end.
+
+Definition C01_guarded_statement : Prop :=
+  forall p mem pol basic cfg fuel st ms reqs asts,
+    wf_project p = true -> wf_mem p mem = true -> layout_ok p = true -> 0 < po_bool_true pol < 256 ->
+    quiet (mkLState p mem pol basic) ms st -> (c_micro800 cfg = false -> ms = true) -> c_conn cfg < 65536 ->
+    Forall2 (exists_in p mem cfg fuel) reqs asts -> Forall (fun s => C01_guard p s = false) reqs ->
+    C01_conclusion p mem cfg fuel st reqs asts.
+
+(* the unproved layer, stated: existence implies that client, target and reference address the same place *)
+Definition resolution_sound : Prop :=
+  forall p mem cfg fuel s r, wf_project p = true -> wf_mem p mem = true -> layout_ok p = true ->
+    exists_in p mem cfg fuel s r -> C01_guard p s = false -> request_ok p mem cfg fuel s r.
+
+(* ---------------------------------------------------------------- what is proved *)
+Definition C01_partial : Prop :=
+  forall p mem pol basic cfg fuel st ms reqs asts,
+    layout_ok p = true -> 0 < po_bool_true pol < 256 ->
+    (forall inst img, mem_get mem inst = Some img -> bytes_ok img = true) ->
+    quiet (mkLState p mem pol basic) ms st -> (c_micro800 cfg = false -> ms = true) -> c_conn cfg < 65536 ->
+    Forall2 (request_ok p mem cfg fuel) reqs asts ->
+    exists st' sent tags,
+      run_read fuel cfg (client_tags p) st reqs = (st', sent, Done tags)
+      /\ Forall2 (tag_correct p mem) asts tags.
+
+Theorem C01_partial_holds : C01_partial.
+Proof.
+  intros p mem pol basic cfg fuel st ms reqs asts Hlay Hbt Hmem Hq Hms Hconn HF.
+  exact (read_correct_partial p mem pol basic cfg fuel Hlay Hbt Hmem st ms reqs asts Hq Hms Hconn HF).
+Qed.
+Print Assumptions C01_partial_holds.
+
+Lemma wf_mem_bytes_ok p mem : wf_mem p mem = true -> forall inst img, mem_get mem inst = Some img -> bytes_ok img = true.
+Proof.
+  unfold wf_mem. intros H inst img Hg.
+  apply andb_prop in H. destruct H as [H Hkeys]. apply andb_prop in H. destruct H as [Htags _].
+  rewrite forallb_forall in Hkeys, Htags.
+  assert (Hin : In (inst, img) mem).
+  { clear -Hg. induction mem as [|[k v] m IH]; [discriminate|]. cbn in Hg. destruct (k =? inst) eqn:E.
+    - injection Hg as ->. left. f_equal. lia.
+    - right. auto. }
+  specialize (Hkeys _ Hin). cbn [fst] in Hkeys.
+  destruct (find_tag_inst (p_tags p) inst) as [g|] eqn:Eg; [|discriminate].
+  assert (Hgin : In g (p_tags p) /\ g_inst g = inst).
+  { clear -Eg. induction (p_tags p) as [|x l IH]; [discriminate|]. cbn in Eg. destruct (g_inst x =? inst) eqn:E.
+    - injection Eg as ->. split; [left; reflexivity|lia].
+    - destruct (IH Eg). split; [right; assumption|assumption]. }
+  destruct Hgin as [Hgin Hgi]. specialize (Htags _ Hgin). rewrite Hgi, Hg in Htags.
+  destruct (tag_size p g); [|discriminate]. apply andb_prop in Htags. tauto.
+Qed.
+
+Theorem C01_guarded_from_resolution : resolution_sound -> C01_guarded_statement.
+Proof.
+  intros Hres p mem pol basic cfg fuel st ms reqs asts Hwf Hwm Hlay Hbt Hq Hms Hconn HF Hg.
+  apply (C01_partial_holds p mem pol basic cfg fuel st ms reqs asts Hlay Hbt (wf_mem_bytes_ok p mem Hwm) Hq Hms Hconn).
+  induction HF as [|s r reqs asts H _ IH]; [constructor|].
+  inversion Hg as [|x y Hgs Hg']; subst. constructor; [|apply IH; exact Hg'].
+  apply (Hres p mem cfg fuel s r Hwf Hwm Hlay H Hgs).
+Qed.
+Print Assumptions C01_guarded_from_resolution.
+
+(* ---------------------------------------------------------------- the full statement is refuted by the UINT element count.
+   An array of 65536 SINTs exists; `g{65536}` asks for all of it; the element count of Read Tag is a UINT:
+   the request cannot be built and its Tag is falsy ("Failed to build request - DataError(...)"). *)
+Definition big_proj : project := mkProject [] [mkTag (zs "g") 5 ScCtrl (BAtom 194) [65536] 0 false 0 0 0 67108864].
+Definition big_mem : Project.mem := [(5, zeros 65536)].
+Definition big_cfg : ccfg := mkCfg 4000 false true.
+Definition big_req : text := zs "g{65536}".
+Definition big_ast : request_ast := mkReq None [mkSeg (zs "g") []] None (Some 65536).
+Definition big_st : tstate lstate := set_app (mkLState big_proj big_mem default_policy init_basic) (init_tstate init_lstate).
+
+Lemma big_run : snd (run_read (Z.to_nat 70000) big_cfg (client_tags big_proj) big_st [big_req]) = Done [err_tag big_req].
+Proof. vm_compute. reflexivity. Qed.
+
+Theorem C01_full_refuted : ~ C01_full.
+Proof.
+  intros H.
+  destruct (H big_proj big_mem default_policy init_basic big_cfg (Z.to_nat 70000) big_st true [big_req] [big_ast])
+    as (st' & sent & tags & Hrun & Htags).
+  - vm_compute. reflexivity.
+  - vm_compute. reflexivity.
+  - vm_compute. reflexivity.
+  - vm_compute. split; reflexivity.
+  - repeat split; reflexivity.
+  - reflexivity.
+  - reflexivity.
+  - constructor; [|constructor]. split; [vm_compute; reflexivity|]. split.
+    + assert (Hs : (match ref_read big_proj big_mem big_ast with Some _ => true | None => false end) = true)
+        by (vm_compute; reflexivity).
+      destruct (ref_read big_proj big_mem big_ast); [discriminate|discriminate Hs].
+    + eexists. eexists. split; [vm_compute; reflexivity|]. split; [vm_compute; reflexivity|].
+      unfold travels. cbn [pq_elements pq_info ti_esize].
+      split; [vm_compute; discriminate|]. split; [vm_compute; discriminate|]. split; [vm_compute; reflexivity|]. lia.
+  - pose proof big_run as Hb. rewrite Hrun in Hb. cbn [snd] in Hb. injection Hb as ->.
+    inversion Htags as [|a t la lt Hc _]; subst.
+    destruct Hc as (v & tn & c & _ & _ & (He & _)). cbn in He. discriminate.
+Qed.
+Print Assumptions C01_full_refuted.
 
 (* ---------------------------------------------------------------- component lemmas, each universally quantified *)
 Definition C01_components : Prop :=
@@ -27,13 +178,32 @@ Definition C01_components : Prop :=
         firstn (Z.to_nat n) (skipn (Z.to_nat bit) (bools_of_bytes d))
         = firstn (Z.to_nat n) (skipn (Z.to_nat (bit - 8 * b0)) (bools_of_bytes d')))
   (* reply decode . target image = reference value, for every element type of every project with a
-     sound layout: atomic types, structures at any nesting depth with bit members and hidden hosts,
-     strings; the type class consumes exactly the image *)
+     sound layout (induction on the template nesting): the type class consumes exactly the image *)
   /\ (forall p, layout_ok p = true -> forall f1 ty tc s,
         elem_tc f1 p ty = Some tc -> base_size p ty = Some s ->
         forall d rest, Path.len d = s -> bytes_ok d = true ->
           exists v', decode_tc tc (d ++ rest) = Ok (v', rest)
-                     /\ forall f2 v, decode_val f2 p ty d = Some v -> pyeq v' v).
+                     /\ forall f2 v, decode_val f2 p ty d = Some v -> pyeq v' v)
+  (* fragment reassembly against the target, for every fragment-length policy; fuel > data size suffices *)
+  /\ (forall app ms conn path pb q l img s tb full,
+        path_wf path pb -> tag_cia pb -> resolve_path (ls_proj app) false pb = TgTag l ->
+        mem_get (ls_mem app) (w_inst l) = Some img -> 0 <= pq_elements q < 65536 ->
+        loc_esize (ls_proj app) l = Some s -> type_bytes (ls_proj app) l = Some tb -> tb_ok tb -> 1 <= s ->
+        1 <= pq_elements q <= w_avail l -> s <= conn - 2 - 4 - Expect.blen tb ->
+        2 + (1 + EncapParser.blen path + 6) <= conn -> pq_elements q * s < 4294967296 ->
+        loc_bytes (ls_pol app) img l 0 (pq_elements q * s) = Some full -> (w_bit l <> None -> pq_elements q * s = 1) ->
+        forall fuel st sent, quiet app ms st -> (Z.to_nat (pq_elements q * s) < fuel)%nat ->
+        exists st' sent',
+          frag_loop (target_peer conn) fuel st path q 0 true [] sent
+          = (st', sent', Done (reply_opt (tb ++ full) (pq_info q) (pq_elements q))) /\ quiet app ms st')
+  (* the transport as a whole: any number of requests the target serves, any plan *)
+  /\ (forall app tags cfg st rs fuel ms,
+        quiet app ms st -> (c_micro800 cfg = false -> ms = true) ->
+        Forall (good app tags cfg) rs -> c_conn cfg < 65536 ->
+        Forall (fun r => (Z.to_nat (rq_n r * rq_sz r) < fuel)%nat) rs ->
+        exists st' sent,
+          read (target_peer (c_conn cfg)) fuel cfg tags st (map rq_s rs)
+          = (st', sent, Done (map (fun r => post_read (rq_q r) (res_of r)) rs)) /\ quiet app ms st').
 
 Theorem C01_components_hold : C01_components.
 Proof.
@@ -41,6 +211,100 @@ Proof.
   split; [exact testbit_to_signed|].
   split; [exact dword_cover|].
   split; [exact bool_range|].
-  intros p Hl f1 ty tc s H1 H2. exact (decode_elem_spec p Hl f1 ty tc s H1 H2).
+  split; [intros p Hl f1 ty tc s H1 H2; exact (decode_elem_spec p Hl f1 ty tc s H1 H2)|].
+  split; [intros; eapply frag_read_ok; eassumption|].
+  exact read_transport.
 Qed.
 Print Assumptions C01_components_hold.
+
+(* ---------------------------------------------------------------- non-vacuity: the hypotheses of C01_partial are inhabited.
+   A project with a DINT tag, an INT[4] array and a BOOL[64] array; one call with four requests (one
+   multi-service packet): a tag, an array slice, a BOOL-array element, an integer bit. *)
+Definition ex_tag (n : text) (inst code : Z) (dims : list Z) : tagdef := mkTag n inst ScCtrl (BAtom code) dims 0 false 0 0 0 67108864.
+Definition ex_proj : project := mkProject [] [ex_tag (zs "x") 7 196 []; ex_tag (zs "a") 9 195 [4]; ex_tag (zs "b") 11 211 [2]].
+Definition ex_mem : Project.mem := [(7, [254; 255; 255; 255]); (9, [1; 0; 2; 0; 3; 0; 4; 128]); (11, [0; 0; 0; 0; 2; 0; 0; 0])].
+Definition ex_cfg : ccfg := mkCfg 500 false true.
+Definition ex_reqs : list text := [zs "x"; zs "a[1]{2}"; zs "b[33]"; zs "x.31"].
+
+
+Ltac fact := first [ reflexivity | exact I | (vm_compute; reflexivity) | (vm_compute; lia) | (vm_compute; discriminate)
+                   | (vm_compute; intros; discriminate) | (vm_compute; intros; congruence) ].
+
+Definition ex_asts : list request_ast :=
+  [mkReq None [mkSeg (zs "x") []] None None; mkReq None [mkSeg (zs "a") [1]] None (Some 2);
+   mkReq None [mkSeg (zs "b") [33]] None None; mkReq None [mkSeg (zs "x") []] (Some 31) None].
+
+Ltac res_with pb :=
+  unfold resolves; eexists; exists pb; eexists;
+  split; [vm_compute; reflexivity|]; split; [vm_compute; reflexivity|]; split; [vm_compute; reflexivity|];
+  split; [unfold path_wf; repeat split; fact|]; split; [first [left; vm_compute; reflexivity | right; eexists; eexists; vm_compute; reflexivity]|];
+  split; [vm_compute; discriminate|]; split; [vm_compute; reflexivity|].
+
+Example C01_nonvacuous_hyps : Forall2 (request_ok ex_proj ex_mem ex_cfg 100) ex_reqs ex_asts.
+Proof.
+  unfold ex_reqs, ex_asts.
+  repeat constructor.
+  - eexists. eexists. split; [|split; [|split]].
+    + res_with [32; 107; 36; 7].
+      cbn [agree]. repeat split; try fact.
+      * exists 4. split; [reflexivity|]. unfold info_for. split; [exists 1%nat; vm_compute; reflexivity|].
+        split; [fact|]. split; [eexists; split; vm_compute; reflexivity|fact].
+      * intros _. left. reflexivity.
+    + unfold fits. repeat split; fact.
+    + fact.
+    + fact.
+  - eexists. eexists. split; [|split; [|split]].
+    + res_with [32; 107; 36; 9; 40; 1].
+      cbn [agree]. repeat split; try fact.
+      * exists 2. split; [reflexivity|]. unfold info_for. split; [exists 1%nat; vm_compute; reflexivity|].
+        split; [fact|]. split; [eexists; split; vm_compute; reflexivity|fact].
+    + unfold fits. repeat split; fact.
+    + fact.
+    + fact.
+  - eexists. eexists. split; [|split; [|split]].
+    + res_with [32; 107; 36; 11; 40; 0].
+      cbn [agree]. repeat split; try fact.
+      * left. reflexivity.
+      * exists 1%nat. vm_compute. reflexivity.
+    + unfold fits. repeat split; fact.
+    + fact.
+    + fact.
+  - eexists. eexists. split; [|split; [|split]].
+    + res_with [32; 107; 36; 7].
+      cbn [agree]. repeat split; try fact.
+      * exists 4. split; [reflexivity|]. unfold info_for. split; [exists 1%nat; vm_compute; reflexivity|].
+        split; [fact|]. split; [eexists; split; vm_compute; reflexivity|fact].
+      * intros _. left. reflexivity.
+    + unfold fits. repeat split; fact.
+    + fact.
+    + fact.
+Qed.
+
+Example C01_nonvacuous :
+  wf_project ex_proj = true /\ wf_mem ex_proj ex_mem = true /\ layout_ok ex_proj = true
+  /\ (let st := set_app (mkLState ex_proj ex_mem default_policy init_basic) (init_tstate init_lstate) in
+      exists st' sent tags, run_read 100 ex_cfg (client_tags ex_proj) st ex_reqs = (st', sent, Done tags)
+                            /\ Forall2 (tag_correct ex_proj ex_mem) ex_asts tags
+                            /\ map tg_value tags = [Some (RInt (-2)); Some (RList [RInt 2; RInt 3]); Some (RBool true); Some (RBool true)]).
+Proof.
+  split; [vm_compute; reflexivity|]. split; [vm_compute; reflexivity|]. split; [vm_compute; reflexivity|].
+  cbv zeta.
+  assert (H1 : layout_ok ex_proj = true) by (vm_compute; reflexivity).
+  assert (H2 : 0 < po_bool_true default_policy < 256) by (vm_compute; split; reflexivity).
+  assert (H3 : forall inst img, mem_get ex_mem inst = Some img -> bytes_ok img = true)
+    by (intros inst img H; apply (wf_mem_bytes_ok ex_proj ex_mem ltac:(vm_compute; reflexivity) inst img H)).
+  assert (H4 : quiet (mkLState ex_proj ex_mem default_policy init_basic) true
+                 (set_app (mkLState ex_proj ex_mem default_policy init_basic) (init_tstate init_lstate)))
+    by (repeat split; reflexivity).
+  assert (H5 : c_micro800 ex_cfg = false -> true = true) by reflexivity.
+  assert (H6 : c_conn ex_cfg < 65536) by reflexivity.
+  destruct (C01_partial_holds ex_proj ex_mem default_policy init_basic ex_cfg 100%nat
+              (set_app (mkLState ex_proj ex_mem default_policy init_basic) (init_tstate init_lstate)) true ex_reqs ex_asts
+              H1 H2 H3 H4 H5 H6 C01_nonvacuous_hyps)
+    as (st' & sent & tags & Hrun & Htags).
+  - exists st', sent, tags. split; [exact Hrun|]. split; [exact Htags|].
+    assert (Hc : snd (run_read 100 ex_cfg (client_tags ex_proj)
+                        (set_app (mkLState ex_proj ex_mem default_policy init_basic) (init_tstate init_lstate)) ex_reqs)
+                 = Done tags) by (rewrite Hrun; reflexivity).
+    vm_compute in Hc. injection Hc as <-. reflexivity.
+Qed.
